@@ -461,6 +461,19 @@ impl TextOwn {
     // C15 (structure): what tokenize_query / tokenize_record return
     pub open spec fn wf(&self) -> bool { self.struct_ok() && self.classes@.len() == self.chars@.len() && ws_stems(self.words@) && self.chars_ok() }
 }
+// C13 link (tokeniser side of Store::search's clause for queries of several words): in a tokenised query every word but the last one is
+// finished — in particular the first word of a query of two or more words
+proof fn lemma_query_fin(t: &TextOwn)
+    requires t.wf(), ws_fin_query(t.words@, t.chars@.len() as int)
+    ensures forall|k: int| 0 <= k < t.words@.len() - 1 ==> (#[trigger] t.words@[k]).fin,
+        t.words@.len() >= 2 ==> t.words@[0].fin,
+{
+    let ws = t.words@;
+    assert forall|k: int| 0 <= k < ws.len() - 1 implies (#[trigger] ws[k]).fin by {
+        assert(ws[k].slice.1 <= ws[k + 1].slice.0);
+        assert(ws[k + 1].slice.0 < ws[k + 1].slice.1 && ws[k + 1].slice.1 <= t.chars@.len());
+    }
+}
 // a filtered sequence is a sub-sequence: order-like properties survive Vec::retain
 proof fn lemma_filter_words(ws: Seq<WordShape>, keep: spec_fn(WordShape) -> bool, n: int)
     requires ws_in(ws, n), ws_ordered(ws)
